@@ -175,6 +175,8 @@ class LogRecorder:
         # every batch of draws any sketch ever holds must be a new one: sketches created in the same
         # process (or loaded) must not share their random batches
         self.batches = set()
+        # the size of the random batch is the implementation's business: read from the object
+        self.B = int(len(self.slots[0].rand_nums))
         self.init_fresh = all(self.new_batch(sk) for sk in self.slots)
         self.keys = {}
         self.events = []
@@ -186,7 +188,7 @@ class LogRecorder:
         """True iff the sketch's current batch has never been seen in this history and lies in [0, 1)."""
         a = np.asarray(sk.rand_nums)
         d = a.tobytes()
-        ok = d not in self.batches and bool(np.all(a >= 0.0) and np.all(a < 1.0)) and len(np.unique(a)) > 2000
+        ok = d not in self.batches and bool(np.all(a >= 0.0) and np.all(a < 1.0)) and len(np.unique(a)) > 0.97 * len(a)
         self.batches.add(d)
         return ok
 
@@ -225,12 +227,12 @@ class LogRecorder:
         for c in range(m, min(m + v, cf.umax) + 1):
             if c >= cf.nr:
                 self.need_p.add(c - cf.nr)
-        window_end = min(2048, ptr0 + v)
+        window_end = min(self.B, ptr0 + v)
         if place is not None:
             # simulate the v unit increments to know which position decides which counter
             c, i = m, ptr0
             for _ in range(v):
-                if c >= cf.umax or i >= 2048:
+                if c >= cf.umax or i >= self.B:
                     break
                 if c < cf.nr:
                     c += 1
@@ -268,14 +270,15 @@ class LogRecorder:
         sk = self.slots[s]
         cf = self.cf
         ptr0 = int(sk.rand_ptr)
-        if ptr0 + cf.umax + 2 > 2048:
-            self.set_ptr(s, 2048)
-            ptr0 = 2048
-        if ptr0 == 2048:
+        B = self.B
+        if ptr0 + cf.umax + 2 > B:
+            self.set_ptr(s, B)
+            ptr0 = B
+        if ptr0 == B:
             # the batch is exhausted: consume one ordinary unit add so that a fresh batch is in place
             self.add(s, k, 1)
             ptr0 = int(sk.rand_ptr)
-            if ptr0 + cf.umax + 2 > 2048:
+            if ptr0 + cf.umax + 2 > B:
                 # (a unit add inside the reserved range draws nothing, so the exhausted batch is still in
                 # place and the draws of the big add could not be placed: skip it -- found with VERIF_SEED=7)
                 return
@@ -310,7 +313,7 @@ class LogRecorder:
                     self.need_p.add(d - cf.nr)
         ptr0 = int(sk.rand_ptr)
         old = sk.rand_nums.copy()
-        pre = [float(x) for x in old[ptr0:min(2048, ptr0 + total)]]
+        pre = [float(x) for x in old[ptr0:min(self.B, ptr0 + total)]]
         call(sk)
         ptr1 = int(sk.rand_ptr)
         refilled = not np.array_equal(old, sk.rand_nums)
@@ -412,7 +415,7 @@ class LogRecorder:
             if e["ev"] == "query":
                 e["out"] = digits(qmap[e.pop("out_f")])
             evs.append(e)
-        return {"W": self.W, "D": self.D, "NS": self.NS, "kind": cf.kind, "init_fresh": bool(self.init_fresh),
+        return {"W": self.W, "D": self.D, "NS": self.NS, "B": self.B, "kind": cf.kind, "init_fresh": bool(self.init_fresh),
                 "UMax": cf.umax, "NR": cf.nr, "max_count": str(cf.max_count),
                 "MaxCount": digits(vints[len(vals)]),
                 "Val": [[c, digits(v)] for c, v in zip(vals, vints)],
@@ -505,7 +508,7 @@ def random_history(rng, focus=None, cfgs=None):
                 rec.query(s, k)
             continue
         if focus == "refill" and rng.random() < 0.3:
-            rec.set_ptr(s, rng.choice([2040, 2045, 2047, 2048]))
+            rec.set_ptr(s, rec.B - rng.choice([8, 3, 1, 0]))
             rec.add(s, k, rng.choice([1, 3, 12]), placer("lo", rng) if rng.random() < 0.5 else None)
             continue
         if focus == "ceiling" and rng.random() < 0.5:
@@ -537,7 +540,7 @@ def random_history(rng, focus=None, cfgs=None):
         elif x < 0.80:
             rec.add_records(s, rng.choice([0, 1, 7]))
         elif x < 0.84:
-            rec.set_ptr(s, min(2048, int(rec.slots[s].rand_ptr) + rng.choice([0, 1, 100, 2000])))
+            rec.set_ptr(s, min(rec.B, int(rec.slots[s].rand_ptr) + rng.choice([0, 1, 100, rec.B - 48])))
         else:
             rec.query(s, k)
     for s in range(NS):
